@@ -683,7 +683,7 @@ func inlineClause(cl string) bool {
 //     or a definition that runs over a line ending, a reference link defined elsewhere);
 //   - ld-html-block-not-recognised: the change lies in what goldmark reads as an HTML block
 //     whose first line has no complete opening tag for the scanner's tag stack (it starts with
-//     a closing tag, or has no `>`);
+//     a closing tag, or is not a complete open tag);
 //   - ld-nested-link-syntax: one line with link syntax inside link syntax (`[[`, or `](`
 //     more than once): brackets inside a destination or a title, links in link text;
 //   - ld-code-in-container-block: the change lies in what goldmark reads as an indented or
@@ -693,6 +693,9 @@ func inlineClause(cl string) bool {
 //     or ends inside what the scanner skips as inline HTML;
 //   - ld-paren-title-with-paren: one line with a parenthesised title that contains an unescaped
 //     `(` (not a title in CommonMark; parseTitle accepts it);
+//   - ld-rewritten-url-unbalanced-paren: one line whose destination has balanced parentheses
+//     with a `?` or `#` between them; the rewritten URL has the `(` percent-encoded in its
+//     path and the `)` bare in its query or fragment, which ends the destination early;
 //   - ld-escapable-set-incomplete: the rewritten URL keeps a backslash because the destination
 //     has a backslash escape of an ASCII punctuation byte that isMarkdownEscapable lacks;
 //   - ld-character-reference-in-destination: the destination has a character reference, which
@@ -728,7 +731,11 @@ var findingDefs = []findingDef{
 			first, _, _ := strings.Cut(sh, "\n")
 			first = strings.TrimLeft(first, " ")
 			return cl == "only-destinations-change" && catOf(detail) == "html-block" && strings.HasPrefix(first, "<") &&
-				(strings.HasPrefix(first, "</") || !strings.Contains(first, ">"))
+				(strings.HasPrefix(first, "</") || !reCompleteOpenTag.MatchString(first))
+		}},
+	{id: "ld-rewritten-url-unbalanced-paren", minimal: "[a]:(?)", clause: "only-destinations-change",
+		class: func(sh, cl, detail string) bool {
+			return inlineClause(cl) && catOf(detail) == "inline" && !strings.Contains(sh, "\n") && reParenThenQueryParen.MatchString(sh)
 		}},
 	{id: "ld-nested-link-syntax", minimal: "[[](<>\"](\")", clause: "only-destinations-change",
 		class: func(sh, cl, detail string) bool {
@@ -757,6 +764,12 @@ var findingDefs = []findingDef{
 // a backslash before one of the ASCII punctuation bytes that isMarkdownEscapable does not list
 var reEscapeOfOtherPunct = regexp.MustCompile("\\\\[\"$%',/:;?@^]")
 var reParenInParenTitle = regexp.MustCompile(`[ \t]\((?:[^()\\]|\\.)*\(`)
+// a complete open tag as CommonMark defines it, at the start of the line
+var reCompleteOpenTag = regexp.MustCompile("^<[A-Za-z][A-Za-z0-9-]*(\\s+[A-Za-z_:][A-Za-z0-9_.:-]*(\\s*=\\s*([^\\s\"'=<>`]+|'[^']*'|\"[^\"]*\"))?)*\\s*/?>")
+
+// a destination with a `(` and, after a `?` or `#`, its `)`: the `)` lands in the query or
+// fragment of the rewritten URL, where net/url leaves it as it is
+var reParenThenQueryParen = regexp.MustCompile(`\([^()\s]*[?#][^()\s]*\)`)
 var reCharRef = regexp.MustCompile(`&(#[0-9]+|#[xX][0-9a-fA-F]+|[A-Za-z][A-Za-z0-9]*);`)
 
 func classify(c *hx.Ctx, shrunk, clause, detail string) string {
